@@ -1,11 +1,176 @@
-"""Entry point used by the CLI: run all contracts serving a property."""
+"""Entry point used by the CLI: run all contracts serving a property, merge per-path results per obligation."""
+import concurrent.futures as cf
+import json
+import multiprocessing as mp
+import os
+import re
+import time
+import traceback
+
+from .. import VERIF, REPO
+
+LOCK = os.path.join(VERIF, "obligations.lock")
+
+
+def _work(args):
+    qn, idx = args
+    try:
+        from .source import SourceDB
+        from . import contracts as C
+        db = SourceDB()
+        reg = C.load_contracts()
+        c = reg[qn]
+        r = C.verify_instance(db, reg, c, idx)
+        r["sha"] = db.func_source_sha(c.module, c.funcpath)
+        r["file"] = db.modules.get(c.module, {}).get("rel")
+        r["file_sha"] = db.modules.get(c.module, {}).get("sha")
+        return r
+    except Exception:
+        return {"qualname": qn, "instance": idx, "status": "crash", "unsupported": traceback.format_exc(),
+                "obligations": [], "paths": 0, "inlined": [], "used_contracts": [], "lemmas": []}
+
+
+def inst_tag(inst):
+    return ",".join("%s=%s" % (k, v.replace("model:", "")) for k, v in sorted(inst.items())) if isinstance(inst, dict) else str(inst)
+
+
+def load_lock():
+    if not os.path.exists(LOCK):
+        return None
+    return set(l.strip() for l in open(LOCK) if l.strip() and not l.startswith("#"))
+
+
+def run_all(selector, tier="quick"):
+    """selector(contract) -> bool. Returns merged results."""
+    from . import contracts as C
+    reg = C.load_contracts()
+    jobs = []
+    for qn, c in reg.items():
+        if c.trusted or not selector(c):
+            continue
+        for i in range(len(c.instances)):
+            jobs.append((qn, i))
+    results = []
+    if jobs:
+        ctx = mp.get_context("fork")
+        with cf.ProcessPoolExecutor(max_workers=min(16, len(jobs)), mp_context=ctx) as ex:
+            results = list(ex.map(_work, jobs))
+    return reg, results
+
+
+def merge(prop, reg, results):
+    lock = load_lock()
+    obligations = {}
+    functions = {}
+    left_reach = []
+    errors = []
+    lemmas = {}
+    files_sha = {}
+    canaries_total = canaries_ok = vac = 0
+    trusted = []
+    from .theory import LEMMAS
+    for r in results:
+        qn = r["qualname"]
+        c = reg[qn]
+        tag = inst_tag(r["instance"]) if isinstance(r["instance"], dict) else str(r["instance"])
+        fkey = "%s[%s]" % (qn, tag)
+        if r.get("file"):
+            files_sha[r["file"]] = r.get("file_sha")
+        if r["status"] == "crash":
+            errors.append("qvc crashed on %s:\n%s" % (fkey, r["unsupported"]))
+            continue
+        if r["status"] in ("unsupported", "missing"):
+            left_reach.append({"function": fkey, "reason": r["unsupported"]})
+            functions[fkey] = {"status": "left_reach", "reason": r["unsupported"], "sha": r.get("sha")}
+            continue
+        functions[fkey] = {"status": "proved?", "sha": r.get("sha"), "paths": r["paths"],
+                           "inlined_callees": r["inlined"], "callee_contracts_used": r["used_contracts"]}
+        vac += r.get("vacuity", 0)
+        for l in r["lemmas"]:
+            lemmas[l] = LEMMAS.get(l, "")
+        for o in r["obligations"]:
+            base = re.sub(r"#p\d+$", "", o["name"])
+            name = "%s/%s[%s]" % (prop, base, tag)
+            cur = obligations.get(name)
+            if cur is None:
+                cur = {"name": name, "status": "discharged", "time_s": 0.0, "backend": o.get("backend"), "paths": 0,
+                       "function": fkey}
+                obligations[name] = cur
+            cur["paths"] += 1
+            cur["time_s"] = round(cur["time_s"] + o.get("time_s", 0.0), 4)
+            if o["status"] != "discharged":
+                order = {"discharged": 0, "open": 1, "refuted": 2}
+                if order[o["status"]] > order[cur["status"]]:
+                    cur["status"] = o["status"]
+                    cur["detail"] = o.get("detail")
+                    cur["model"] = o.get("model")
+                    cur["smt2"] = o.get("smt2")
+                    cur["note"] = o.get("note")
+            if o.get("canary") is not None:
+                canaries_total += 1
+                canaries_ok += 1 if o["canary"] else 0
+    for fkey, f in functions.items():
+        if f["status"] == "proved?":
+            obs = [o for o in obligations.values() if o["function"] == fkey]
+            f["obligations"] = len(obs)
+            f["status"] = "proved" if obs and all(o["status"] == "discharged" for o in obs) else "not proved"
+            if not obs:
+                errors.append("zero obligations generated for %s" % fkey)
+    obl = sorted(obligations.values(), key=lambda o: o["name"])
+    for o in obl:
+        o["locked"] = (lock is None) or (o["name"] in lock)
+    # locked obligations that disappeared because their function left reach are *not* alarms (DESIGN §3)
+    for qn, c in reg.items():
+        if c.trusted and prop in c.props:
+            trusted.append("assumed contract (not verified by body): %s — %s" % (qn, c.note))
+    return {"obligations": obl, "functions": functions, "left_reach": left_reach, "errors": errors,
+            "lemmas": lemmas, "files_sha": files_sha, "canaries_total": canaries_total, "canaries_ok": canaries_ok,
+            "vacuity_queries": vac, "assumptions": trusted,
+            "trusted_base": ["lemma instances used (status in coverage.lemmas): " + ", ".join(sorted(lemmas))]}
 
 
 def run_property(prop, tier, seed):
-    return None
+    reg, results = run_all(lambda c: prop in c.props, tier)
+    if not results:
+        return None
+    return merge(prop, reg, results)
+
+
+def relock():
+    from .. import PROPERTIES
+    names = set()
+    for prop in PROPERTIES:
+        r = run_property(prop, "quick", 0)
+        if not r:
+            continue
+        for o in r["obligations"]:
+            if o["status"] == "discharged":
+                names.add(o["name"])
+    with open(LOCK, "w") as f:
+        f.write("# obligations discharged on the unchanged (or repaired) tree; written only by `./check --relock`\n")
+        for n in sorted(names):
+            f.write(n + "\n")
+    return len(names)
 
 
 def replay(payload):
-    import json
-    print(json.dumps(payload, indent=1)[:4000])
+    print("obligation:", payload.get("obligation"), "status at report time:", payload.get("status"))
+    print("solver output:", payload.get("solver_output"))
+    if payload.get("model"):
+        print("counter-model (verifier):", json.dumps(payload["model"], indent=1)[:2000])
+    smt2 = payload.get("smt2")
+    if smt2:
+        import z3
+        s = z3.Solver()
+        s.set("rlimit", 40_000_000)
+        s.from_string(smt2)
+        print("re-running stored query:", s.check(), "(unsat would mean discharged)")
+    # re-verify on the current tree
+    name = payload.get("obligation", "")
+    m = re.match(r"^(C\d+)/", name)
+    if m:
+        r = run_property(m.group(1), "quick", 0)
+        cur = [o for o in (r or {}).get("obligations", []) if o["name"] == name]
+        print("status on the current tree:", cur[0]["status"] if cur else "obligation not generated")
+        return 1 if cur and cur[0]["status"] != "discharged" else 0
     return 0
